@@ -28,6 +28,7 @@ Wire form of one op (also what Driver/H_c03.lean decodes):
   FLAGS = 9 booleans: include_time, _variables, _parameters, _derived_parameters, _derived_variables, _reactions,
           _surrogate_variables, _surrogate_fluxes, _readouts.     ROWS = [[t, VALS], ...] (distinct times)
   ["fork"]: the history continues on `copy.deepcopy(model)`; the original must stay as it was.
+  ["fork", "pickle"]: the same through `pickle.loads(pickle.dumps(model))`.
   A VAL may carry "obj": true — the plural forms then receive a `Parameter` / `Variable` object instead of the bare value.
   ["add_surrogate", n, SUR, args|null, outs|null, st|null]: the keyword form of add_surrogate.
 """
@@ -68,6 +69,25 @@ def F(x):
 
 _FN_MEMO: dict = {}
 
+# the compiled functions live in a module of their own so that `pickle` can store them by reference (a model with
+# functions defined in an importable module pickles; nothing of `Model` is special-cased: it has no `__getstate__`)
+_FN_MODULE_NAME = "mxlverif_c03_fns"
+
+
+def _register(f):
+    import sys
+    import types
+
+    mod = sys.modules.get(_FN_MODULE_NAME)
+    if mod is None:
+        mod = types.ModuleType(_FN_MODULE_NAME)
+        sys.modules[_FN_MODULE_NAME] = mod
+    name = f"fn_{len(vars(mod))}"
+    f.__module__ = _FN_MODULE_NAME
+    f.__name__ = f.__qualname__ = name
+    setattr(mod, name, f)
+    return f
+
 
 def mkfn(e, arity, sig=None):
     """a real Python function for `e` (memoised: pure functions may be shared between models).
@@ -83,7 +103,7 @@ def mkfn(e, arity, sig=None):
     key = (json.dumps(e), arity)
     f = _FN_MEMO.get(key)
     if f is None:
-        f = fexpr.compile_fn(e, arity)
+        f = _register(fexpr.compile_fn(e, arity))
         f._mxl_e = e
         _FN_MEMO[key] = f
     return f
@@ -108,7 +128,7 @@ def mkfn_sig(e, sig):
     src = f"def f({', '.join(params)}):\n{pre}    return {fexpr.src_expr(e, names)}\n"
     ns: dict = {}
     exec(compile(src, "<mxlverif-c03-sig>", "exec"), ns)  # noqa: S102
-    f = ns["f"]
+    f = _register(ns["f"])
     f._mxl_e = e
     f._mxl_sig = list(sig)
     _FN_MEMO[key] = f
@@ -140,7 +160,7 @@ def mkmulti(es, arity):
     key = ("multi", json.dumps(es), arity)
     f = _FN_MEMO.get(key)
     if f is None:
-        f = fexpr.compile_multi(es, arity)
+        f = _register(fexpr.compile_multi(es, arity))
         f._mxl_es = es
         _FN_MEMO[key] = f
     return f
@@ -465,6 +485,106 @@ def singular_ops(op):
     return [[s, n, clean_val(v)] for n, v in op[1]]
 
 
+# --------------------------------------------------------------------------- canonical wire form of an op
+
+
+def _as_dict(pairs):
+    """a pair list read the way the call receives it — as a Python dict: a key given twice keeps its first position
+    and its last value"""
+    d = {}
+    for k, v in pairs:
+        d[k] = v
+    return [[k, v] for k, v in d.items()]
+
+
+def _canon_sur_st(st):
+    return None if st is None else _as_dict([[f, _as_dict(inner)] for f, inner in st])
+
+
+def canon_op(op):
+    """the op with every stoichiometry written once per key (the real call is made with dicts built from the pair
+    lists; the Lean model and the oracles are given the same thing)"""
+    k = op[0]
+    meta = op[-1] == "meta"
+    body = list(op[:-1]) if meta else list(op)
+    if k == "add_reaction":
+        body[2] = {**body[2], "st": _as_dict(body[2]["st"])}
+    elif k == "update_reaction" and body[4] is not None:
+        body[4] = _as_dict(body[4])
+    elif k in ("add_surrogate", "update_surrogate"):
+        if body[2] is not None:
+            body[2] = {**body[2], "st": _canon_sur_st(body[2]["st"])}
+        if len(body) > 5:
+            body[5] = _canon_sur_st(body[5])
+    elif k == "make_parameter_dynamic" and body[3] is not None:
+        body[3] = _as_dict(body[3])
+    return body + (["meta"] if meta else [])
+
+
+# --------------------------------------------------------------------------- public methods the check knows nothing about
+
+KNOWN_PUBLIC = set(PLURAL) | set(PLURAL.values()) | {
+    "make_parameter_dynamic", "make_variable_static", "add_derived", "update_derived", "remove_derived", "add_reaction",
+    "update_reaction", "remove_reaction", "add_readout", "remove_readout", "add_surrogate", "update_surrogate",
+    "remove_surrogate", "add_data", "update_data", "remove_data",
+    # readers the model answers (Mxl.C03.modelledEntries) and readers named out of scope (Mxl.C03.outOfScope)
+    "ids", "get_initial_conditions", "get_parameter_values", "get_derived_parameter_names", "get_derived_variable_names",
+    "get_derived_parameters", "get_derived_variables", "get_args", "get_right_hand_side", "get_fluxes", "__call__",
+    "get_stoichiometries", "get_stoichiometries_of_variable", "get_variable_names", "get_parameter_names",
+    "get_reaction_names", "get_readout_names", "get_surrogate_output_names", "get_surrogate_reaction_names",
+    "get_unused_parameters", "get_raw_variables", "get_raw_parameters", "get_raw_derived", "get_raw_reactions",
+    "get_raw_readouts", "get_raw_surrogates", "get_arg_names", "get_raw_stoichiometries_of_variable",
+    "get_args_time_course", "get_fluxes_time_course", "get_right_hand_side_time_course",
+    "__repr__", "parameters", "variables", "derived", "reactions", "check_units",
+}
+
+
+def unknown_public():
+    """public functions / properties written in the body of the real `class Model` that are neither a mutator the
+    model has an op for nor a reader it answers / names as out of scope (dataclass-generated dunders are not
+    written in model.py and do not count)"""
+    import inspect
+
+    from mxlpy import Model
+
+    out = []
+    for n, v in vars(Model).items():
+        if n.startswith("_") and not (n.startswith("__") and n.endswith("__")):
+            continue
+        f = v.fget if isinstance(v, property) else v
+        if not inspect.isfunction(f) or not f.__code__.co_filename.endswith("model.py"):
+            continue
+        if n not in KNOWN_PUBLIC:
+            out.append(n)
+    return sorted(out)
+
+
+# argument lists tried on a method nobody has described (names of the BASE model of c03gen and new names)
+PROBE_ARGS = [[], ["k"], ["x"], ["r1"], ["dp"], ["n1"], ["k", "5"], ["x", "5"], ["k", "n1"], ["x", "n1"], ["r1", "n1"],
+              ["n1", "5"], [{"k": "5"}], [{"x": "5"}], [["k"]], [["x"]]]
+
+
+def _probe_arg(a):
+    if isinstance(a, dict):
+        return {k: _probe_arg(v) for k, v in a.items()}
+    if isinstance(a, list):
+        return [_probe_arg(v) for v in a]
+    try:
+        return F(a)
+    except (ValueError, ZeroDivisionError):
+        return a
+
+
+def apply_call(m, op):
+    """["call", name, args]: a public method the model does not know, called with plain arguments"""
+    from mxlpy import Model
+
+    if isinstance(vars(Model).get(op[1]), property):
+        getattr(m, op[1])
+    else:
+        getattr(m, op[1])(*[_probe_arg(a) for a in op[2]])
+
+
 # --------------------------------------------------------------------------- real model -> wire
 
 
@@ -473,10 +593,14 @@ def _fn_wire(obj):
     # the number of positional parameters is part of the function: a fresh model gets the same function
     sig = getattr(obj.fn, "_mxl_sig", None)
     if sig is None:
-        import inspect
+        sig = getattr(obj.fn, "_mxl_plain_sig", None)
+        if sig is None:
+            import inspect
 
-        sig = [len(inspect.getfullargspec(obj.fn).args), None, 0, False]
-    w["sig"] = sig
+            # (memoised on the function object: the harness' functions are immutable and shared)
+            sig = [len(inspect.getfullargspec(obj.fn).args), None, 0, False]
+            obj.fn._mxl_plain_sig = sig
+    w["sig"] = list(sig)
     return w
 
 
